@@ -128,6 +128,7 @@ class Node:
         self.tmp = None
         self.info = None
         self.incarnation = 0
+        self.disk = None
 
     def start(self):
         env_spec = self.env
@@ -141,6 +142,12 @@ class Node:
         env["VERIF_NODE_FDS"] = f"{r_child},{w_child}"
         env["VERIF_NODE_SRC"] = repo_src()
         env["VERIF_NODE_ENTROPY"] = str(env_spec.get("entropy", 1))
+        # the node's own disk (survives crash-restarts of this node, is not shared with other nodes, starts empty)
+        if self.disk is None:
+            self.disk = os.path.join(_fleet_root(), "disk-%s-%d" % (self.name, id(self) % 100000))
+            os.makedirs(self.disk, exist_ok=True)
+        for var in ("TMPDIR", "TEMP", "TMP", "HOME", "XDG_CACHE_HOME", "XDG_CONFIG_HOME", "XDG_DATA_HOME"):
+            env[var] = self.disk
         env["PYTHONDONTWRITEBYTECODE"] = "1"
         cwd = "/"
         if env_spec["cwd"] in ("tmp", "deleted"):
@@ -217,3 +224,10 @@ class Node:
         if self.tmp:
             shutil.rmtree(self.tmp, ignore_errors=True)
             self.tmp = None
+
+    def destroy(self):
+        """End of the deployment: the node's disk goes too."""
+        self.kill()
+        if self.disk:
+            shutil.rmtree(self.disk, ignore_errors=True)
+            self.disk = None
